@@ -544,6 +544,11 @@ def run(ctx):
                 ctx.bad('C08.5-index', inst_u, 'index %s on %s not covered: len known >= %s' % (k if k is not None else str(rng_from) + '..', describe(Bp, base), lenr[0]), where,
                         key='PANIC:%sfrom_term:%s' % (CM + '::', inst_u))
 
+    # dependency: Atom::new
+    ctx.rule('C08.2-atom-interning', 'atoms inside control tuples (exit reasons, registered names, module names) go through Atom::new on both conversion directions: its interning tables agree entry by entry', floor=1)
+    from ..etf import check_atom_tables
+    check_atom_tables(ctx, 'C08.2-atom-interning')
+
 
 def _is_field(e, name, into=False):
     if e is None:
